@@ -35,26 +35,32 @@ def place(prog, ch, ntexts):
     stmts = [(s, d) for s, d in zip(prog, ds) if s.kind != "program_anon"]
     lines = []
     placed = []
+    order = []  # interleaving model: ("s", statement index) | ("c", text)
     texts = TEXTS[:ntexts]
 
     def text():
         return texts[ch.choose(len(texts), "text")]
 
-    for s, d in stmts:
+    i = 0
+    while i < len(stmts):
+        s, d = stmts[i]
         ind = " " * (1 + 2 * d)
         g = ch.choose(4, "gap")
         if g == 1:
             t = text()
             lines.append(ind + t)
             placed.append((t, "gap"))
+            order.append(("c", t))
         elif g == 2:
             t1, t2 = text(), text()
             lines += [ind + t1, t2]
             placed += [(t1, "gap"), (t2, "gap")]
+            order += [("c", t1), ("c", t2)]
         elif g == 3:
             t = text()
             lines += [ind + t, ""]
             placed.append((t, "gap"))
+            order.append(("c", t))
         line = s.line()
         inner = []
         body = s.text
@@ -73,28 +79,47 @@ def place(prog, ch, ntexts):
                     lines += [ind + pre + body[:k] + " & " + t, ind + "    &" + body[k:]]
                     inner.append((t, "inner"))
                 line = None
+        # ';' join with the next statement (comments of the physical line are
+        # delivered after the LAST statement of the line)
+        joined = False
+        if i + 1 < len(stmts) and not stmts[i + 1][0].label and ch.flag("join"):
+            nxt = stmts[i + 1][0]
+            if line is not None:
+                line = line + "; " + nxt.line()
+            else:
+                lines[-1] = lines[-1] + "; " + nxt.line()
+            joined = True
         tr = ch.choose(1 + len(texts), "trail")
         if line is not None:
             lines.append(ind + line)
         if tr:
             t = texts[tr - 1]
             lines[-1] = lines[-1] + " " + t
-            inner.append((t, "trailing"))
+            inner.append((t, "trailing-joined" if joined else "trailing"))
         placed += inner
+        order.append(("s", i))
+        if joined:
+            order.append(("s", i + 1))
+        order += [("c", t) for t, _ in inner]
+        i += 2 if joined else 1
     g = ch.choose(3, "endgap")
     if g:
         t = text()
         lines.append(t)
         placed.append((t, "gap"))
+        order.append(("c", t))
         if g == 2:
             lines.append("")
-    return "\n".join(lines) + "\n", placed
+    return "\n".join(lines) + "\n", (placed, order)
 
 
 def judge(src, placed, base_text, base_canon, std):
     """returns list of (kind, detail)"""
     from fparser.two.Fortran2003 import Comment, Directive
 
+    order = None
+    if isinstance(placed, tuple):
+        placed, order = placed
     out = []
     # ignore mode
     o = try_parse(src, std, ignore_comments=True)
@@ -128,8 +153,16 @@ def judge(src, placed, base_text, base_canon, std):
                 break
         else:
             out.append(("keep:code-differs", "%d code lines printed, %d without comments" % (len(code_lines), len(base_lines))))
-    # a trailing comment prints directly after its statement: checked through
-    # the order of lines (statement lines and comment lines interleaved)
+    # comments in place: the interleaving of statement lines and comment lines
+    # of the regenerated text equals the model's (a trailing comment directly
+    # after its statement - after the last statement of a ';'-joined line)
+    if order is not None and not out and len(base_lines) == sum(1 for k, _ in order if k == "s"):
+        want_lines = [base_lines[v] if k == "s" else v.strip() for k, v in order]
+        if tl != want_lines:
+            for i, (a, b) in enumerate(zip(tl, want_lines)):
+                if a != b:
+                    out.append(("keep:comment-position", "line %d of the regenerated text is %r, model expects %r" % (i + 1, a, b)))
+                    break
     # directive mode
     dmode = try_parse(src, std, ignore_comments=False, process_directives=True)
     if not dmode.ok:
@@ -141,7 +174,7 @@ def judge(src, placed, base_text, base_canon, std):
         nodes = [(type(n).__name__, str(n)) for n in walk(dmode.tree, (Comment, Directive)) if str(n).strip()]
         want_nodes = []
         for t, kind in placed:
-            d = is_directive_form(t) and kind != "trailing" and not (kind == "inner" and False)
+            d = is_directive_form(t) and not kind.startswith("trailing") and not (kind == "inner" and False)
             want_nodes.append(("Directive" if d else "Comment", t))
         # inline comments (after code on the same line, incl. after '&') are never directives
         if [n for n in nodes] != want_nodes:
@@ -204,15 +237,15 @@ def run(task):
             res.evals += 1
             hk = h64(src, std)
             res.states.add(hk)
-            if placed:
+            if placed[0]:
                 res.nontrivial.add(hk)
             vs = judge(src, placed, base_text, base_canon, std)
             res.outcomes["ok" if not vs else vs[0][0]] += 1
             res.results.add(hk)
             for kind, detail in vs:
-                res.violation(sig(kind, placed), "%s vec=%s std=%s\n%s\n--- source:\n%s" % (pid, list(vec), std, detail, src), {"src": src, "placed": [list(p) for p in placed], "base": base_src, "std": std}, cost=len(vec) * 100000 + len(src))
+                res.violation(sig(kind, placed[0]), "%s vec=%s std=%s\n%s\n--- source:\n%s" % (pid, list(vec), std, detail, src), {"src": src, "placed": [list(p) for p in placed[0]], "order": [list(o) for o in placed[1]], "base": base_src, "std": std}, cost=len(vec) * 100000 + len(src))
             if res.evals % 500 == 1:
-                res.sample({"program": pid, "placed": placed, "source": src})
+                res.sample({"program": pid, "placed": placed[0], "source": src})
         if shard == 0:
             res.transitions += stats.get("decisions", 0)
     return res
@@ -221,5 +254,6 @@ def run(task):
 def replay(case):
     o0 = try_parse(case["base"], case["std"])
     placed = [tuple(p) for p in case["placed"]]
-    vs = judge(case["src"], placed, text_of(o0.tree), canon(o0.tree), case["std"])
+    arg = (placed, [tuple(o) for o in case["order"]]) if case.get("order") else placed
+    vs = judge(case["src"], arg, text_of(o0.tree), canon(o0.tree), case["std"])
     return [{"sig": sig(k, placed), "detail": d} for k, d in vs]
